@@ -47,9 +47,12 @@ class C07(Prop):
         self.Bridge = SwitcherBridge
         self.rig = udp.UdpRig(ctx["shard"])
         self.rig.install(asyncio.get_running_loop())
+        self.tp = await udp.probe_bridges(self.rig)
         self.tag = 0
 
     async def teardown(self, ctx):
+        for b, _, _ in self.tp:
+            await b.stop()
         self.rig.uninstall(asyncio.get_running_loop())
 
     def cases(self, tier, seed, shard, nshards):
@@ -339,6 +342,26 @@ class C07(Prop):
             acc.sample({"ports": nports, "callback_schedule": sched, "datagrams": n_dg,
                         "first_port_classes": history_desc[str(ports[0])][:25],
                         "first_port_delivered_tags": delivered[ports[0]][:10]})
+
+
+    def thread_pairs(self, ctx):
+        r = env.rng("C07", "threads")
+        (b1, p1, g1), (b2, p2, g2) = self.tp
+        if p1 is None or p2 is None:
+            return []
+        d = {m: gen.broadcast_desc(r, m, 7, f"{0xD00000 + n:06x}") for n, m in enumerate(("BREEZE", "V4", "RUNNER", "POWER_PLUG", "BREEZE"))}
+        d2 = gen.broadcast_desc(r, "BREEZE", 11, "d000aa")
+        enc = {m: rb.encode(x) for m, x in d.items()}
+        nomagic = bytearray(enc["V4"])
+        nomagic[0:2] = b"\x00\x00"
+        unknown = bytearray(enc["V4"])
+        unknown[74:76] = b"\xee\x01"
+        H, J = udp.handed_over, udp.judge_delivery
+        return [("first broadcast ever: Breeze || Breeze", H(p1, g1, enc["BREEZE"]), H(p2, g2, rb.encode(d2)), J(d["BREEZE"]), J(d2)),
+                ("frame without the magic || genuine broadcast", H(p1, g1, bytes(nomagic)), H(p2, g2, enc["RUNNER"]), J(None), J(d["RUNNER"])),
+                ("genuine broadcast || frame without the magic", H(p1, g1, enc["POWER_PLUG"]), H(p2, g2, bytes(nomagic)), J(d["POWER_PLUG"]), J(None)),
+                ("unknown model || water heater", H(p1, g1, bytes(unknown)), H(p2, g2, enc["V4"]), J("unknown"), J(d["V4"])),
+                ("runner || plug", H(p1, g1, enc["RUNNER"]), H(p2, g2, enc["POWER_PLUG"]), J(d["RUNNER"]), J(d["POWER_PLUG"]))]
 
 
 PROP = C07()
